@@ -59,6 +59,15 @@ func (r *Runner) immutableGlobal(st *State, g *ssa.Global) (Val, bool) {
 	return Val{T: et, C: []Term{r.typeTagByName("*errors.errorString"), id}}, true
 }
 
+func (r *Runner) globalReassigned(g *ssa.Global) bool {
+	for _, m := range g.Pkg.Members {
+		if fn, ok := m.(*ssa.Function); ok && fn.Name() != "init" && storesGlobal(fn, g) {
+			return true
+		}
+	}
+	return false
+}
+
 func storesGlobal(fn *ssa.Function, g *ssa.Global) bool {
 	for _, b := range fn.Blocks {
 		for _, in := range b.Instrs {
@@ -149,6 +158,7 @@ func (r *Runner) lockAcquire(st *State, p *Place, mode string, pos token.Pos) {
 		return
 	}
 	stt := owner.Root.Underlying().(*types.Struct)
+	preHavoc := r.shadow(st)
 	for i := 0; i < stt.NumFields(); i++ {
 		if ts.Guarded[stt.Field(i).Name()] == mu {
 			fp := owner.withField(i)
@@ -159,11 +169,26 @@ func (r *Runner) lockAcquire(st *State, p *Place, mode string, pos token.Pos) {
 		}
 	}
 	r.yield(st)
+	self := Val{T: types.NewPointer(owner.Root), C: []Term{r.interiorID(st, owner)}, P: owner}
 	for _, c := range ts.LockInv[mu] {
 		env := r.newEnv(st, r.pkgByPath(ts.Pkg))
-		env.vars["self"] = Val{T: types.NewPointer(owner.Root), C: []Term{r.interiorID(st, owner)}, P: owner}
+		env.vars["self"] = self
 		st.assume(env.EvalBool(c.E, st))
 	}
+	// two-state invariants: other threads' critical sections relate the state at our
+	// previous release (or, the first time, any earlier state) to the state we now see
+	if len(ts.Stable[mu]) > 0 && preHavoc != nil {
+		for _, c := range ts.Stable[mu] {
+			env := r.newEnv(st, r.pkgByPath(ts.Pkg))
+			env.vars["self"] = self
+			env.old = preHavoc
+			st.assume(env.EvalBool(c.E, st))
+		}
+	}
+	if st.lockSnap == nil {
+		st.lockSnap = map[string]*State{}
+	}
+	st.lockSnap[key] = r.shadow(st)
 }
 
 func (r *Runner) pkgByPath(path string) *ssa.Package {
@@ -203,10 +228,47 @@ func (r *Runner) lockRelease(st *State, p *Place, pos token.Pos, reader bool) {
 	owner, mu := r.lockOwner(p)
 	if owner != nil {
 		if ts := r.typeSpecOf(owner.Root); ts != nil && st.held[key] == "w" {
+			self := Val{T: types.NewPointer(owner.Root), C: []Term{r.interiorID(st, owner)}, P: owner}
 			for _, c := range ts.LockInv[mu] {
 				env := r.newEnv(st, r.pkgByPath(ts.Pkg))
-				env.vars["self"] = Val{T: types.NewPointer(owner.Root), C: []Term{r.interiorID(st, owner)}, P: owner}
+				env.vars["self"] = self
 				r.oblige(st, "lockinv", shortType(owner.Root)+"."+c.Label, env.EvalBool(c.E, st), pos)
+			}
+			if snap := st.lockSnap[key]; snap != nil {
+				for _, c := range ts.Stable[mu] {
+					env := r.newEnv(st, r.pkgByPath(ts.Pkg))
+					env.vars["self"] = self
+					env.old = snap
+					r.oblige(st, "stable", shortType(owner.Root)+"."+c.Label, env.EvalBool(c.E, st), pos)
+				}
+			}
+		}
+	}
+	// critical-section postconditions of the function under verification
+	if r.curSpec != nil && len(r.curSpec.CSEnsures) > 0 && len(st.frames) > 0 {
+		if snap := st.lockSnap[key]; snap != nil {
+			top := st.frames[0]
+			env := r.newEnv(st, top.fn.Pkg)
+			env.frame = top
+			for i, n := range r.curSpec.Formals {
+				if n != "_" && i < len(top.params) {
+					env.vars[n] = top.params[i]
+				}
+			}
+			env.old = snap
+			for i, n := range r.curSpec.Results {
+				if a := resultCell(top.fn, i); a != nil && n != "_" {
+					if cv, ok := st.cells[cellKey{top.id, a}]; ok {
+						env.vars[n] = cv
+					}
+				}
+			}
+			for _, c := range r.curSpec.CSEnsures {
+				// clauses labelled wait:* apply to the release inside cond.Wait, all others to ordinary releases
+				if strings.HasPrefix(c.Label, "wait:") != r.inWait {
+					continue
+				}
+				r.oblige(st, "cs", c.Label, env.EvalBool(c.E, st), pos)
 			}
 		}
 	}
@@ -561,6 +623,12 @@ func (r *Runner) model(st *State, f *Frame, key string, callee *ssa.Function, ar
 			f.regs[res] = r.newError(st, res.Type())
 		}
 		return true
+	case "fmt.Sprintf":
+		return r.sprintfModel(st, f, args, res, in)
+	case "sync/atomic.AddInt64", "sync/atomic.AddInt32", "sync/atomic.AddUint64", "sync/atomic.AddUint32",
+		"sync/atomic.LoadInt64", "sync/atomic.LoadInt32", "sync/atomic.LoadUint64", "sync/atomic.LoadUint32",
+		"sync/atomic.StoreInt64", "sync/atomic.StoreInt32", "sync/atomic.StoreUint64", "sync/atomic.StoreUint32":
+		return r.atomicFuncModel(st, f, key, args, res, pos)
 	case "(*sync.WaitGroup).Add", "(*sync.WaitGroup).Done", "(*sync.WaitGroup).Wait", "(*sync.Once).Do":
 		if key == "(*sync.Once).Do" {
 			return false
@@ -655,7 +723,10 @@ func (r *Runner) condLocker(st *State, c Val) *Place {
 }
 
 func (r *Runner) condWait(st *State, f *Frame, c Val, pos token.Pos) bool {
-	lp := r.condLocker(st, c)
+	lp := c.Lk
+	if lp == nil {
+		lp = r.condLocker(st, c)
+	}
 	if lp == nil {
 		// cond.L unknown: look for exactly one held lock
 		if len(st.held) != 1 {
@@ -670,8 +741,25 @@ func (r *Runner) condWait(st *State, f *Frame, c Val, pos token.Pos) bool {
 			panic(unsupported("cond.Wait with unknown locker"))
 		}
 	}
+	r.inWait = true
 	r.lockRelease(st, lp, pos, false)
+	r.inWait = false
 	r.lockAcquire(st, lp, "w", pos)
+	// interference assumptions declared by the function's contract
+	if r.curSpec != nil && len(st.frames) > 0 {
+		top := st.frames[0]
+		for _, c := range r.curSpec.Rely {
+			env := r.newEnv(st, top.fn.Pkg)
+			env.frame = top
+			for i, n := range r.curSpec.Formals {
+				if n != "_" && i < len(top.params) {
+					env.vars[n] = top.params[i]
+				}
+			}
+			st.assume(env.EvalBool(c.E, st))
+			r.note("rely[" + c.Label + "] assumed after cond.Wait: " + c.Src)
+		}
+	}
 	return true
 }
 
